@@ -25,6 +25,14 @@ const VerInfo XVERS[] = {FO3S(12), FO3S(13), FO3S(14), FO3S(15), FO3S(16), FO3S(
 #undef FO3S
 const int NXVERS = 22;
 
+std::string scratchPath(const char* tag) {
+	static int n = 0;
+	std::string dir = g_cfg.verif + "/.cache/tmp";
+	static bool made = false;
+	if (!made) { std::filesystem::create_directories(dir); made = true; }
+	return dir + "/" + tag + "_" + std::to_string((long)getpid()) + "_" + std::to_string(n++) + ".nif";
+}
+
 const VerInfo* findVer(const std::string& name) {
 	for (int i = 0; i < NVERS; i++)
 		if (name == VERS[i].n) return &VERS[i];
